@@ -36,6 +36,12 @@ StagesNarrow == {
   St("flatten", "") }
 StagesWide == StagesNarrow \cup {
   Stage("chunked", "", 3, 1, 0, N0), St("unique", "mod2"),
+  \* keys in every spelling a glom spec can take (T expression, path string, tuple, Spec, Check), partial keys,
+  \* a callable separator
+  St("map", "item0_T"), St("map", "item0_str"), St("map", "cnt0_T"), St("map", "inc_tup"), St("map", "inc_spec"),
+  St("filter", "lt2_check"), St("filter", "lt2_spec"), St("filter", "item0_T"),
+  St("takewhile", "item0_T"), St("takewhile", "lt2_tup"), St("dropwhile", "item0_T"), St("dropwhile", "odd_spec"),
+  St("unique", "item0_spec"), St("unique", "mod2_tup"), Stage("split", "fn", 0, -1, 0, VStr("odd")),
   St("map", "dup"), St("map", "T"), St("map", "stop_at2"), St("filter", "odd"), St("filter", "lt2"),
   Slice("slice", 1, 4, 1), Slice("slice", 1, -1, 2), Slice("slice", 2, 3, 1), Slice("slice", 2, 1, 1), Slice("limit", 0, 0, 1), Slice("slice1", 0, 3, 1),
   St("takewhile", "T"), St("dropwhile", "T"), St("dropwhile", "odd"),
@@ -46,7 +52,7 @@ Stages == IF Wide THEN StagesWide ELSE StagesNarrow
 BasesNarrow == { BaseStage("T", STOP, FALSE), BaseStage("skip_odd", STOP, FALSE), BaseStage("T", VInt(0), TRUE) }
 BasesWide == BasesNarrow \cup { BaseStage("inc", VInt(3), TRUE), BaseStage("stop_at2", STOP, FALSE),
                                 BaseStage("T", N0, TRUE), BaseStage("dup", STOP, FALSE),
-                                BaseStage("stop_at2", VInt(0), TRUE) }
+                                BaseStage("stop_at2", VInt(0), TRUE), BaseStage("item0_T", STOP, FALSE) }
 Bases == IF Wide THEN BasesWide ELSE BasesNarrow
 
 Fin(items) == [kind |-> "fin", items |-> items]
@@ -60,6 +66,7 @@ SourcesNarrow == {
   Fin(<<>>) }
 SourcesWide == SourcesNarrow \cup {
   Fin(<<I(3)>>),
+  Fin(<<VList(<<I(1), I(2)>>), VList(<<I(0)>>), VList(<<I(0), I(3)>>), VTuple(<<I(1)>>), VList(<<I(2), I(2)>>)>>),
   Fin(<<I(1), I(1), I(3), I(2), I(4), I(5), I(7), I(6), I(0)>>),
   [kind |-> "cyc", items |-> <<VList(<<I(1)>>), VList(<<I(0), I(2)>>)>>] }
 Sources == IF Wide THEN SourcesWide ELSE SourcesNarrow
@@ -102,9 +109,16 @@ DefDemandOrdered ==
   \A k \in 1..(KMax + 1) :
      /\ LeqInf(pred.dem[k], pred.demLA[k])
      /\ k <= KMax => LeqInf(pred.dem[k], pred.dem[k + 1]) /\ LeqInf(pred.demLA[k], pred.demLA[k + 1])
-\* first() is the first truthy output; all() is everything, exactly when the pipeline ends
+\* first(key, default) is the first output for which key holds - the item itself - else the default, once the
+\* end is determined; all() is everything, exactly when the pipeline ends
 DefTerminals ==
-  /\ pred.first.det /\ pred.first.found => Truthy(pred.first.v) /\ InSeq(pred.first.v, Full.xs)
+  /\ \A full \in {Full} : \A i \in 1..Len(FirstVariants) :
+       LET f == pred.first[i] xs == full.xs IN
+       f.det =>
+         IF f.found
+         THEN \E j \in 1..Len(xs) : /\ f.v = xs[j] /\ PredFn(f.p, xs[j])
+                                     /\ \A m \in 1..(j - 1) : ~PredFn(f.p, xs[m])
+         ELSE f.v = f.d /\ pred.ended /\ \A j \in 1..Len(xs) : ~PredFn(f.p, xs[j])
   /\ pred.all.det = pred.ended
   /\ pred.all.det => LeqInf(pred.demLA[KMax + 1], pred.all.demLA)
 
